@@ -158,6 +158,10 @@ def correctable(item):
         try:
             with common.time_limit(10):
                 c = np.asarray(dec.decode(s)).ravel() % 2
+                if sweep is True or j_ % 3 == 0:
+                    # the caller still holds the measured syndrome: decoding the
+                    # SAME array again must correct the error just as well
+                    c = np.asarray(dec.decode(s)).ravel() % 2
         except Exception as ex:
             raised = f'{type(ex).__name__}: {ex}'[:80]
         obs.append({'e': codes.bsf_to_op(e, n), 'c': codes.bsf_to_op(c, n), 'raised': raised})
